@@ -268,14 +268,17 @@ def evaluate(tag, build, scns):
         ops = "[" + "; ".join(op_term(o) for o in s["ops"]) + "]"
         evs = impl_events_term(strip_diag(it))
         common_args = f"{c} {s['n']} {disc_term(s['disc'])} {ops} {evs}"
+        pre = f"{c} {s['n']} {disc_term(s['disc'])} {ops}"
         exprs.append(f"(scenario_events {args}, check_C13 {common_args}, check_C14 {common_args}, "
-                     f"stale_completions {ops} {evs})")
+                     f"stale_completions {ops} {evs}, check_C13 {pre} (scenario_events {args}))")
     vals = coq_eval(tag, IMPORTS, exprs)
     res = []
     for s, it, v in zip(scns, impl, vals):
         t = parse_term(v)
-        assert t[0] == "tuple" and len(t) == 5, v[:200]
-        res.append({"impl": strip_diag(it), "model": t[1], "a13": t[2], "a14": t[3], "stale": t[4]})
+        assert t[0] == "tuple" and len(t) == 6, v[:200]
+        # m13: check_C13 on the MODEL's own run (clauses validated on the model: applied to the implementation
+        # only where the model's run is clean)
+        res.append({"impl": strip_diag(it), "model": t[1], "a13": t[2], "a14": t[3], "stale": t[4], "m13": t[5]})
     return res, htbl
 
 
